@@ -12,7 +12,7 @@ three SQL fragments of `ViralPropagation/sql.py`; viral attributes carried as na
                               `harness/checks/c28.py`: the engine builds the list without ORDER BY);
 * `clause_passthrough`        clauses, plain assignment and set operators of the core evaluator `evalD` leave the viral
                               column of every datapoint unchanged;
-* `rowwise_viral / binary_viral / aggregation_viral`  the viral value of every result datapoint of a row-preserving operator / a
+* `rowwise_viral / binary_viral / aggregation_viral / analytic_viral`  the viral value of every result datapoint of a row-preserving operator / a
                               dataset ∘ dataset operator / an aggregation is `wide` / `pair` / `group` of the values of the
                               datapoints combined into it;
 * `no_rule_rejected`          a result carrying a viral attribute without a rule is rejected by semantic analysis;
@@ -369,6 +369,21 @@ theorem aggregation_viral (s : VSpec) (spec : AggSpec) (x res : DS) (h : vAggr s
     ∀ r' ∈ res.rows,
       group p.2 ((members res.ids x.rows (r'.key res.ids)).map (·.get p.1)) = .ok (r'.get p.1) :=
   VtlModel.Sem.vAggr_viral s spec x res h hn p hp hout
+
+/-- **Analytic invocations** (`op(DS over (partition by …))`): every datapoint is kept and its viral value is the rule
+applied to the viral values of exactly the datapoints of its partition. -/
+theorem analytic_viral (s : VSpec) (ps : List String) (x res : DS) (h : vPartition s ps x = .ok res) (hn : s.names.Nodup)
+    (p : String × Rule) (hp : p ∈ viralOf s x) (hid : p.1 ∉ x.ids) :
+    ∀ r' ∈ res.rows, ∃ r ∈ x.rows, r'.key x.ids = r.key x.ids ∧
+      group p.2 ((members ps x.rows (r.key ps)).map (·.get p.1)) = .ok (r'.get p.1) :=
+  VtlModel.Sem.vPartition_viral s ps x res h hn p hp hid
+
+/-- the partition operator inside expressions: keys stay unique; order independence for order-free rules (PARTIAL,
+as for aggregations). -/
+theorem vPartition_Ext_partial (s : VSpec) (ps : List String) (d : DExpr) (hw : C10.ExtWF d) (hp : C33.ExtPerm d) :
+    C10.ExtWF (.app1 (vPartition s ps) d) ∧
+    ((∀ p ∈ s, OrderFree p.2) → C33.ExtPerm (.app1 (vPartition s ps) d)) :=
+  ⟨⟨hw, fun x r w h => vPartition_WF s ps x r w h⟩, fun hs => ⟨hp, fun x y w h => vPartition_perm s hs ps x y w h⟩⟩
 
 /-- non-vacuity of the operator theorems: a dataset with a viral attribute under `aggregate max`, multiplied by a
 constant, then aggregated. -/
